@@ -359,6 +359,55 @@ func c05(c *core.Ctx) {
 				ok = (balanceCallOn(c, op.x, inc) != nil && op.y == cf.Params[1]) || (balanceCallOn(c, op.y, inc) != nil && op.x == cf.Params[1])
 			}
 			c.Check("chargeForGas:credit=own-balance+charge", "amount-identity", ok, cs[0].Pos(), "the income account receives its own balance plus exactly the charge argument")
+			// ... and the income account is the one the miner's profile names NOW: the credited account is GetAccount(address) where the
+			// address is computed, in this call, from GetCandidate of GetAccount(minerAddress parameter) under the income-address key — not
+			// from anything remembered across calls (a field, a map, a sync.Map of the processor)
+			inc := recvValue(cs[0])
+			sl := core.Slice(inc)
+			fromProfile := false
+			for v := range sl {
+				ci, isCall := v.(ssa.CallInstruction)
+				if !isCall || !core.SameFamily(core.CalleeObj(ci), acc("GetCandidate")) {
+					continue
+				}
+				rs := core.Slice(recvValue(ci))
+				if rs[cf.Params[2]] {
+					fromProfile = true
+				}
+			}
+			remembered := false
+			var walk func(v ssa.Value, d int)
+			seenW := map[ssa.Value]bool{}
+			walk = func(v ssa.Value, d int) {
+				if v == nil || seenW[v] || d > 30 {
+					return
+				}
+				seenW[v] = true
+				switch x := v.(type) {
+				case *ssa.TypeAssert:
+					// a value taken out of an interface{} container (sync.Map.Load and the like)
+					if ex, ok := x.X.(*ssa.Extract); ok {
+						if call, ok := ex.Tuple.(*ssa.Call); ok {
+							if o := core.CalleeObj(call); o != nil && o.Pkg() != nil && o.Pkg().Path() == "sync" {
+								remembered = true
+							}
+						}
+					}
+				case *ssa.Lookup:
+					if _, f, isLd := core.FieldLoad(x.X); isLd && f != nil && ownerNamed(c, f) == c.Named(tr+".TxProcessor") {
+						remembered = true
+					}
+				}
+				if in, ok := v.(ssa.Instruction); ok {
+					for _, op := range in.Operands(nil) {
+						if *op != nil {
+							walk(*op, d+1)
+						}
+					}
+				}
+			}
+			walk(inc, 0)
+			c.Check("chargeForGas:income-account=current-profile(miner)", "value-flow", fromProfile && !remembered, cs[0].Pos(), "the account credited is looked up from the income address in the miner account's profile as it is in the state being executed (remembered across calls: %v)", remembered)
 		} else {
 			c.Check("chargeForGas:shape", "amount-identity", false, cf.Pos(), "chargeForGas must hold exactly one credit (%d)", len(cs))
 		}
@@ -923,6 +972,97 @@ func c05(c *core.Ctx) {
 	// conditions of C05 as well and are evaluated here under their own keys
 	c07(c)
 	c16(c)
+
+	c.Clause("C05.9", "no stale write-back of a candidate profile: a profile handed to SetCandidate was read (GetCandidate) after the last write of a candidate profile on the way — a copy read before a refund or a state change and written back afterwards restores what that step cleared (the deposit entry: the deposit would leave the pool twice)")
+	c.Run("profile-write-back", func() {
+		setC := acc("SetCandidate")
+		setS := acc("SetCandidateState")
+		getC := acc("GetCandidate")
+		// functions of the transaction / consensus packages that (transitively, static calls, depth 3) write a candidate profile
+		writes := map[*ssa.Function]bool{}
+		direct := func(fn *ssa.Function) bool {
+			for _, ci := range core.AllCalls(fn) {
+				if o := core.CalleeObj(ci); core.SameFamily(o, setC) || core.SameFamily(o, setS) {
+					return true
+				}
+			}
+			return false
+		}
+		var scope []*ssa.Function
+		for _, fn := range c.SrcFuncs {
+			if r := core.RelPkg(fn); (r == tr || r == "chain/consensus") && !isTestHelper(c, fn) {
+				scope = append(scope, fn)
+				if direct(fn) {
+					writes[fn] = true
+				}
+			}
+		}
+		for round := 0; round < 3; round++ {
+			for _, fn := range scope {
+				if writes[fn] {
+					continue
+				}
+				for _, ci := range core.AllCalls(fn) {
+					if sf := core.StaticFn(ci); sf != nil && writes[sf] {
+						writes[fn] = true
+					}
+				}
+			}
+		}
+		isWriter := func(ci ssa.CallInstruction) bool {
+			if o := core.CalleeObj(ci); core.SameFamily(o, setC) || core.SameFamily(o, setS) {
+				return true
+			}
+			if sf := core.StaticFn(ci); sf != nil && writes[sf] {
+				return true
+			}
+			return false
+		}
+		n := 0
+		seq := map[string]int{}
+		for _, fn := range scope {
+			for _, s := range core.CallsIn(fn, setC) {
+				n++
+				prof := callArgs(s)[0]
+				sl := core.Slice(prof)
+				var reads []ssa.CallInstruction
+				fromParam := false
+				for v := range sl {
+					if ci, ok := v.(ssa.CallInstruction); ok && core.SameFamily(core.CalleeObj(ci), getC) && ci.Parent() == fn {
+						reads = append(reads, ci)
+					}
+					if p, ok := v.(*ssa.Parameter); ok && p.Parent() == fn {
+						if _, isMap := p.Type().Underlying().(*types.Map); isMap {
+							fromParam = true
+						}
+					}
+				}
+				stale := ""
+				for _, w := range core.AllCalls(fn) {
+					if w == s || !isWriter(w) || !core.ReachableAfter(w, s) || core.ReachableAfter(s, w) && !core.Dominates(w, s) {
+						continue
+					}
+					// the write lies between the read and the write-back
+					between := fromParam && len(reads) == 0
+					for _, g := range reads {
+						if core.ReachableAfter(g, w) {
+							between = true
+						}
+					}
+					if between {
+						stale = objName(core.CalleeObj(w))
+						if sf := core.StaticFn(w); sf != nil && stale == "" {
+							stale = sf.Name()
+						}
+					}
+				}
+				name := shortFn(fn)
+				seq[name]++
+				c.Check("SetCandidate:fresh-profile@"+name+seqSuffix(seq[name]), "order", stale == "", s.Pos(), "%s writes back a profile that was read before %s wrote a candidate profile on the same path", name, stale)
+			}
+		}
+		c.Floor("SetCandidate-sites", n, 2)
+	})
 
 	c.NotDecidedf("the numeric equalities themselves are NOT decided: that the sum of all balances is unchanged by a block, that Σ fees debited = Σ fees credited as numbers, that DivideSalary's shares add up to at most the term reward, that IsRewardBlock is true once per term")
 	c.NotDecidedf("value flows inside the EVM beyond the Transfer hook (contract.UseGas, gas refunds of SSTORE, precompile pricing), and flows of the gas figure through struct fields, maps or interfaces (C05.3b lists any such escape as undecided instead of guessing)")
